@@ -234,7 +234,12 @@ MovesUnionS(h, kn) ==
                      (IF a # <<>> /\ b # <<>> THEN <<MArrange(i, <<Ord(Col(b[1]), FALSE, "first"), Ord(Col(a[1]), TRUE, "last")>>)>> ELSE <<>>)
                      \o <<MSlice(i, 2, 0), MSlice(i, 0, 0), MAlias(i, t.name, TRUE), MAlias(i, t.name, FALSE)>>
                      \o MapS(b, LAMBDA c : MFilter(i, <<Fn2("gt", Col(c), LitI(0))>>))
-    IN  IF jc # 0 THEN <<>>
+        n == Len(h)
+    IN  IF jc # 0
+        THEN \* on the union result: a slice, then a verb that needs a subquery (an alias() inside an OPERAND is no place for its marker)
+             LET u == Min({q \in DOMAIN h : IsJoined(h[q])}) IN      \* the union itself; later entries derive from it
+             (IF n = u THEN <<MSlice(n, 3, 0)>> ELSE <<>>)
+             \o (IF n = u + 1 /\ "b" \in VisNames(h[n]) THEN <<MFilter(n, <<Fn2("gt", CN("b"), LitI(0))>>)>> ELSE <<>>)
         ELSE pre(h[lc], lc) \o pre(h[rc], rc) \o <<MUnion(lc, rc, FALSE), MUnion(lc, rc, TRUE)>>
 
 (* a literal column on both sides (a different literal per side): after the union the column is no constant any more - it is *)
